@@ -17,7 +17,7 @@ from vlib import gen_obj  # noqa: E402
 from vlib.memhist_support import LOG  # noqa: E402
 
 mod = __import__(cfg["module"])
-mem = Memory(cfg["dir"] + "/cache", verbose=0, compress=cfg.get("compress", False))
+mem = Memory(cfg["dir"] + "/cache", verbose=cfg.get("verbose", 0), compress=cfg.get("compress", False))
 holders = {}
 wrappers = {}
 RECACHE = cfg.get("recache")
@@ -30,7 +30,11 @@ def cache(fn, **kw):
     if RECACHE == "twice":
         w = mem.cache(w, **kw)
     elif RECACHE == "other-memory":
-        w = Memory(cfg["dir"] + "/cache", verbose=0, compress=cfg.get("compress", False)).cache(w, **kw)
+        w = Memory(cfg["dir"] + "/cache", verbose=cfg.get("verbose", 0), compress=cfg.get("compress", False)).cache(w, **kw)
+    elif RECACHE == "pickled":
+        # the wrapper went through pickle (as when it is sent to a worker or stored): an equivalent wrapper must come back
+        import pickle
+        w = pickle.loads(pickle.dumps(w))
     return w
 
 
